@@ -310,8 +310,8 @@ pub fn run(ctx: &mut LaneCtx) {
         SubSpec {
             name: "live-stacks-limit",
             cases: (288, 8_000),
-            rule: "as live-stacks but 22..48 threads and a size limit around the estimate threshold (+-3) or tiny, so that threads at list position >= 20 are shortened; oracle additionally: only positions >= 20 and never the crash-context thread are shortened, to <= 2048 bytes containing sp",
-            strategy: (crate::props::fid::case_strategy(48, 22), prop_oneof![(-3i32..4).prop_map(crate::props::fid::LimitG::Around), Just(crate::props::fid::LimitG::Tiny)])
+            rule: "as live-stacks but 22..48 threads and a size limit around the estimate threshold (+-3), tiny (so that threads at list position >= 20 are shortened) or at the top of the value range (u64::MAX, 2^63 +- ...: never triggered); oracle additionally: only positions >= 20 and never the crash-context thread are shortened, to <= 2048 bytes containing sp",
+            strategy: (crate::props::fid::case_strategy(48, 22), prop_oneof![4 => (-3i32..4).prop_map(crate::props::fid::LimitG::Around), 2 => Just(crate::props::fid::LimitG::Tiny), 1 => any::<u8>().prop_map(crate::props::fid::LimitG::Top)])
                 .prop_map(|(mut c, l)| {
                     c.limit = l;
                     c
